@@ -34,4 +34,4 @@ def run(ctx):
         for k in range(8):
             ctx.tie("loader-schedules-%d" % k, [h, "gen", "--seed", str(ctx.seed + 1000 * k), "--cases", "2500", "--dfs", "0", "--tier", "thorough"], [drv], timeout=3000)
         for pi in range(4):
-            ctx.tie("loader-schedules-dfs-%d" % pi, [h, "gen", "--seed", str(ctx.seed), "--cases", "0", "--dfs", "20000", "--dfs-only", str(pi), "--tier", "thorough"], [drv], timeout=3000)
+            ctx.tie("loader-schedules-dfs-%d" % pi, [h, "gen", "--seed", str(ctx.seed), "--cases", "0", "--dfs", "8000", "--dfs-only", str(pi), "--tier", "thorough"], [drv], timeout=3000)
